@@ -38,6 +38,7 @@ RULE = (
     ' Round 6: `cancelled_read k` (reader cancelled after k loop iterations: what it did not return stays owed); BOM/NUL/backslash payloads enumerated.'
     ' Round 7: prefix levels with regex/format/shell metacharacters; constructor failure for a legal prefix is a violation.'
     ' Round 8: `write_while_reading`.'
+    ' Round 13: `reconnect fail_exit` (the broker fails during the goodbye, then the same object connects again); `build=outside` (the transport is created before any event loop runs).'
     ' Round 12: `concurrent_writes` (several tasks write while a publish takes a few loop iterations); `mid_cycle` (QoS > 0 deliveries whose packet identifiers repeat).'
     ' Round 9: `reconnect_retained` with staggered subscription acknowledgements; prefixes with empty levels.'
 )
@@ -224,6 +225,7 @@ def _ops():
         (1, st.just(["broker_error"])),
         (1, st.just(["disconnect"])),
         (2, st.just(["reconnect"])),
+        (1, st.just(["reconnect", "fail_exit"])),
         (2, st.just(["abandoned_read"])),
         (3, st.integers(0, 4).map(lambda k: ["cancelled_read", k])),
         (2, _msg().map(lambda m: ["write_while_reading", m])),
@@ -241,6 +243,7 @@ def strategy(tier: str):
             "connect_fault": st.sampled_from(("none",) * 8 + ("connect", "subscribe")),
             "ops": _ops(),
             "mid_cycle": st.sampled_from((0, 0, 1, 2)),
+            "build": st.sampled_from((None, None, "outside")),
         }
     )
 
@@ -287,6 +290,12 @@ def enumerate_cases(tier: str):
         for qos in (1, 2):
             ops = [["deliver", [7, 1, 1, 0, 2, str(i)], [qos, False]] for i in range(6)] + [["read"]] * 6 + [["deliver", [7, 1, 1, 0, 2, "1"], [qos, False]], ["deliver", [7, 1, 1, 0, 2, "1"], [qos, False]], ["read"], ["read"]]
             yield {"in_prefix": "in", "out_prefix": "out", "connect_fault": "none", "ops": ops, "mid_cycle": cycle}
+    # an unclean disconnect (the broker fails during the goodbye), then the same object connects again; a transport built before the loop exists
+    for how in ("fail_exit", None):
+        for build in (None, "outside"):
+            ops = [["deliver", [1, 1, 1, 0, 2, "1"]], ["read"], ["reconnect"] + ([how] if how else []), ["deliver", [7, 255, 3, 1, 0, "7"]], ["read"], ["echo", [7, 2, 1, 1, 47, "a;b"]],
+                   ["reconnect"] + ([how] if how else []), ["write", [3, 1, 2, 0, 0, ""]], ["deliver", [7, 255, 4, 0, 1, ""]], ["read"]]
+            yield {"in_prefix": "in", "out_prefix": "out", "connect_fault": "none", "ops": ops, "build": build}
     # several tasks write at once while a publish takes a few loop iterations
     for slow in (0, 1, 3):
         for msgs in ([[7, 1, 1, 0, 2, "a"], [7, 1, 1, 0, 2, "b"]], [[7, 1, 1, 1, 2, "a"], [7, 1, 1, 1, 2, "a"]], [[7, 1, 1, 0, 2, "a"], [8, 255, 3, 1, 9, "b"], [9, 1, 2, 0, 0, ""]],
@@ -320,14 +329,24 @@ def run_case(case: dict) -> Outcome:
     in_prefix, out_prefix = case["in_prefix"], case["out_prefix"]
     info = {"err_between": False, "delim": False, "kinds": set()}
 
+    prebuilt: dict = {}
+    if case.get("build") == "outside":
+        # the transport object is created by synchronous start-up code, before any event loop runs
+        prebuilt["broker"] = FakeBroker()
+        _patch(prebuilt["broker"])
+        try:
+            prebuilt["transport"] = MQTTClient("broker.invalid", 1883, in_prefix, out_prefix)
+        except Exception as err:  # noqa: BLE001
+            return fail(f"construct-raises:{type(err).__name__}", f"MQTTClient built outside any event loop raised {err!r}")
+
     async def main() -> Outcome | None:
-        broker = FakeBroker()
+        broker = prebuilt.get("broker") or FakeBroker()
         broker.mid_cycle = int(case.get("mid_cycle") or 0)
         broker.fail_connect = case["connect_fault"] == "connect"
         broker.fail_subscribe = case["connect_fault"] == "subscribe"
         _patch(broker)
         try:
-            transport = MQTTClient("broker.invalid", 1883, in_prefix, out_prefix)
+            transport = prebuilt.get("transport") or MQTTClient("broker.invalid", 1883, in_prefix, out_prefix)
         except Exception as err:  # noqa: BLE001
             return fail(f"construct-raises:{type(err).__name__}", f"MQTTClient with in-prefix {in_prefix!r} / out-prefix {out_prefix!r} (legal topic names) raised {err!r}")
         schema = MessageSchema()
@@ -612,7 +631,12 @@ def run_case(case: dict) -> Outcome:
             elif kind == "reconnect":
                 # same transport object, new session; what was received but not read yet stays owed to the reader
                 try:
-                    await transport.disconnect()
+                    if len(op) > 1 and op[1] == "fail_exit":
+                        broker.fail_exit = True  # the broker (or the network) fails while the client says goodbye: an unclean disconnect
+                    try:
+                        await transport.disconnect()
+                    finally:
+                        broker.fail_exit = False
                     await transport.connect()
                 except BaseException as err:  # noqa: BLE001 - a CancelledError leaking out of disconnect counts (nobody cancels this task)
                     return fail(f"reconnect-raises:{type(err).__name__}", f"{where}: disconnect+connect on the same transport raised {err!r}")
